@@ -176,13 +176,76 @@ def run_sweep(ctx):
             if n >= 10:
                 ctx.nontrivial.add(j[2]['digest'])
 
+# ------------------------------------------------------------------ the library's own traffic: workloads of the other checks under the C05 oracle
+def run_borrowed(ctx):
+    """The statement covers every submitter, not only application threads calling low-level send functions: the start-up dialogue, node
+    new / lost notices and their acknowledgements, SecAck mirrors and accessory queries sent by the receiver thread, high-level commands,
+    stall and budget release, system reset, the shutdown sequence, several sessions per process. The scenario generators of the checks
+    that drive those paths are re-used; here only the per-node sequence rule is judged, per session."""
+    import importlib
+    jobs = []
+    for mod, fn, n, pick in (('C15', 'gen_scenario', 30, 0), ('C19', 'gen_scenario', 20, 0), ('C20', 'gen_scenario', 15, 0), ('C04', 'gen_seq', 20, 0),
+                             ('C04', 'gen_stress', 8, 0), ('C03', 'gen_stress', 8, 0), ('C09', 'gen_scenario', 4, 0), ('C16', 'gen_scenario', 12, 0)):
+        m_ = importlib.import_module('vlib.props.' + mod)
+        for k in range(ctx.n(n, n * 30)):
+            try:
+                out = getattr(m_, fn)(ctx, 100000 + k)
+            except Exception as e:                                  # a generator that cannot be borrowed must not look like a verdict
+                ctx.inconclusive.append(f'borrowed generator {mod}.{fn}: {e!r}')
+                break
+            text = out[0] if isinstance(out, tuple) else out
+            jobs.append((mod + '.' + fn, text))
+    res = runner.run_many('asan', [(i, j[1]) for i, j in enumerate(jobs)], timeout=900)
+    for (src, text), r in zip(jobs, res):
+        meta = {'threads': 'library', 'mix': 'borrowed:' + src, 'normal': True, 'digest': hashlib.sha1(text.encode()).hexdigest()[:12]}
+        if runner.outcome(r) != 'ok':
+            continue                                                # judged by the check that owns the scenario
+        # one wire per session
+        sessions, cur, running = [], None, False
+        for e in r.events:
+            if e.get('e') == 'call' and e.get('f') == 'bidib_start_pointer':
+                if not running:                                     # a start while running does nothing
+                    cur = []
+                    sessions.append(cur)
+                    running = True
+            elif e.get('e') == 'ret' and (e.get('f') == 'bidib_stop' or (e.get('f') == 'bidib_start_pointer' and e.get('r') != 0 and len(sessions) and not cur)):
+                running = False if e.get('f') == 'bidib_stop' else running
+            elif e.get('e') == 'tx' and cur is not None:
+                cur.append(bytes.fromhex(e['hex']))
+            if e.get('e') == 'ret' and e.get('f') == 'bidib_start_pointer' and e.get('r') == 1 and e.get('live_threads') == 0:
+                running = False                                     # a failed start has stopped the library again
+        nmsg = 0
+        bad = None
+        for chunks in sessions:
+            try:
+                wire = [model.parse_msg(m) for p in model.strict_deframe(b''.join(chunks)) for m in model.split_messages(p['payload'])]
+            except model.FrameError:
+                wire = None                                         # framing is C01's business
+            if not wire:
+                continue
+            nmsg += len(wire)
+            bad, _w = seq_scan(wire, True)
+            if bad:
+                break
+        if bad:
+            ctx.violation(bad[0], 'seq', bad[1] + f'; workload {src}', text, 'asan', meta)
+            continue
+        ctx.evaluations += 1
+        ctx.count('borrowed_sessions', len(sessions))
+        ctx.count('borrowed_wire_messages', nmsg)
+        ctx.add_set('borrowed_workloads', src)
+        ups = {e.get('payload', '')[6:8] for e in r.events if e.get('e') == 'up'}
+        if nmsg > 10:
+            ctx.nontrivial.add(meta['digest'])
+
 def run(ctx):
     ctx.rule = ('2-16 application threads sending zero-response and budgeted messages to 1-3 nodes (>=300..900 messages per node, so the '
                 '255->1 wrap is crossed), auto-flush 0-3 ms, lock-level perturbation 0-70%, debug and normal mode, asan and tsan flavours. '
                 'non-trivial = distinct scenario with >=2 threads in which at least one node wrapped 255->1. Directed sweep: for pairs of send '
                 'functions (data-less / with data, zero-response / budgeted, budget free / exhausted) to one node, thread A is paused at each of its first 12-60 '
                 'scheduling points (lock operations; library function entries) while thread B - or the receiver releasing held messages - runs completely; '
-                'non-trivial there = process in which >= 10 cases really paused')
+                'non-trivial there = process in which >= 10 cases really paused. Borrowed workloads: scenarios of C03/C04/C09/C15/C16/C19/C20 (start-up dialogue, node new/lost, '
+                'SecAck mirrors, stall/budget release by the receiver thread, high-level commands, reset, several sessions) judged per session by the sequence rule only')
     ctx.assumptions = ['reference decoder', 'simulated bus answers every request (deferred messages are released by the receiver thread)']
     jobs = []
     n = ctx.n(40, 1000)
@@ -201,6 +264,8 @@ def run(ctx):
             check_wire(ctx, r, j[2])
     if only != 'stress':
         run_sweep(ctx)
+    if only in ('', 'borrowed'):
+        run_borrowed(ctx)
     ctx.sample({k: v for k, v in jobs[0][2].items()})
     ctx.sample({'scenario_head': jobs[1][1].split('\n')[:12]})
     return ctx.finish(min_eval=10, min_nontrivial=5)
